@@ -27,7 +27,8 @@
   compatible family), `trso_no_surrogate_iff_id_partial` / `trso_no_surrogate_none_iff_id_partial` /
   `trso_no_surrogate_den_eq_id` (no DECLARED experiment: same verdict and same function as ID) and
   `trso_no_internal_error` (no exception on validated input).  The one gap (kept as `_partial`): the VERDICT equivalence
-  with ID is proved for inputs whose source domains declare no experiment, not for "experiments declared, none usable"
+  with ID is proved HERE for inputs whose source domains declare no experiment; "experiments declared, none usable" is closed in
+  Props/C05Usable.lean (`trso_no_usable_surrogate_iff_id`: hypothesis `identifyUsesLine6 … = false`, of which `hZ` is a special case)
   (there `trso_sound` still gives the value, and the verdict is compared with the real `identify_outcomes` on every run).  The `…_partial` theorems of §1 are kept as the
   intermediate results they are (subsumed by `trso_no_internal_error`).  Hypotheses everywhere: graph well-formed and
   acyclic, node names below 100 (selection nodes are `200 + v`), outcomes non-empty, input validated.
